@@ -87,6 +87,26 @@ def api_cases(chk, tier):
         rng.shuffle(seq)
         for op, d in seq[:6 if tier == "quick" else 12]:
             out.append((op, d, X, Y, (kx, ky, "session"), rng.random() < 0.35))
+    # other public routes to the same arithmetic: the numpy functions np.add / np.subtract / np.multiply / np.divide (second operand a plain
+    # Staircase or a parametric-class Leaf with the same bounds), and the operators of UncertainNumber objects whose constructs are p-boxes or a
+    # Distribution (whose p-box supplies the bounds X the answer is decided against)
+    from pyuncertainnumber.pba.pbox_abc import convert_pbox
+    from pyuncertainnumber.pba.distributions import Distribution
+    routes = ["ufunc", "ufunc-leaf", "un", "un-dist"]
+    for i in range(8 if tier == "quick" else 64):
+        route = routes[i % 4]
+        d = "po"[(i // 4) % 2] if (tier == "quick" or i % 5) else "i"
+        op = ("Sub", "Div", "Add", "Mul")[(i // 8 + i) % 4]
+        kx, ky = rng.choice(["pos", "neg", "straddle"]), rng.choice(["pos", "neg"])
+        X = pbx.gen_bounds(rng, 200, kx, dy=True)
+        Y = pbx.gen_bounds(rng, 200, ky, dy=True)
+        kinds = (kx, ky, route)
+        if route == "un-dist":
+            fam, par = rng.choice([("uniform", (round(rng.uniform(-3, 1), 2), round(rng.uniform(1.5, 4), 2))), ("gaussian", (round(rng.uniform(-2, 5), 2), round(rng.uniform(0.3, 2), 2)))])
+            pb = convert_pbox(Distribution(fam, par))
+            X = ([float(v) for v in pb.left], [float(v) for v in pb.right])
+            kinds = ("dist", ky, route, fam, par)
+        out.append((op, d, X, Y, kinds, route))
     return out
 
 
@@ -96,7 +116,20 @@ def run_api(case):
     op, d, X, Y, _, bare = case
     try:
         x, y = pbx.staircase_of(X), pbx.staircase_of(Y)
-        if bare:
+        if isinstance(bare, str):
+            from pyuncertainnumber.pba.pbox_abc import Leaf
+            from pyuncertainnumber import UncertainNumber
+            if bare.startswith("ufunc"):
+                if bare == "ufunc-leaf":
+                    y = Leaf(left=np.array(Y[0]), right=np.array(Y[1]))
+                with pba.dependency(d):
+                    r = {"Add": np.add, "Sub": np.subtract, "Mul": np.multiply, "Div": np.divide}[op](x, y)
+            else:
+                ux = UncertainNumber(essence="distribution", distribution_parameters=[case[4][3], tuple(case[4][4])]) if bare == "un-dist" else UncertainNumber.from_pbox(x)
+                with pba.dependency(d):
+                    r = pbx.PYOPS[op](ux, UncertainNumber.from_pbox(y))
+                r = r._construct
+        elif bare:
             with pba.dependency(d):
                 r = pbx.PYOPS[op](x, y)
         else:
@@ -179,10 +212,10 @@ def body(chk):
         if why:
             chk.report(f"operation.{c[0]}:{c[1]}", why, {"kind": "oracle-kernel", "fn": c[0], "op": c[1], "X": c[2], "Y": c[3], "observed": o})
     for c, o in zip(ac, aouts):
-        chk.count(f"api-{c[0]}-{c[1]}-{'bare' if c[5] else 'method'}", key=(c[0], c[1], c[4], c[5]))
+        chk.count(f"api-{c[0]}-{c[1]}-{c[5] if isinstance(c[5], str) else ('bare' if c[5] else 'method')}", key=(c[0], c[1], c[4], c[5]))
         why = api_oracle(c, o)
         if why:
-            chk.report(f"Pbox.{c[0]}:{c[1]}:{pbx.sign_of(*c[2])}:{pbx.sign_of(*c[3])}", why,
+            chk.report(f"Pbox.{c[0]}:{c[1]}:{pbx.sign_of(*c[2])}:{pbx.sign_of(*c[3])}" + (":" + c[5] if isinstance(c[5], str) else ""), why,
                        {"kind": "oracle-api", "op": c[0], "dep": c[1], "bare_operator": c[5], "X": c[2], "Y": c[3]})
     chk.sample({"fn": kc[0][0], "op": kc[0][1], "X": kc[0][2], "Y": kc[0][3], "impl": valid[0][1]})
     chk.sample({"api": ac[0][0], "dep": ac[0][1], "kinds": ac[0][4], "X_left_head": ac[0][2][0][:3], "impl_left_head": aouts[0][1][:3] if aouts[0][0] == "ok" else aouts[0]})
